@@ -158,6 +158,21 @@ impl<T: Clone> NumbatList<T> {
     }
 }
 
+#[cfg(feature = "verif-hooks")]
+impl<T: Clone> NumbatList<T> {
+    /// Concrete representation for the verification harness: allocation identity,
+    /// number of owners of the allocation, the *full* backing deque (also the
+    /// elements outside of the view) and the view.
+    pub fn verif_repr(&self) -> (usize, usize, Vec<T>, Option<(usize, usize)>) {
+        (
+            Arc::as_ptr(&self.alloc) as usize,
+            Arc::strong_count(&self.alloc),
+            self.alloc.iter().cloned().collect(),
+            self.view,
+        )
+    }
+}
+
 impl From<NumbatList<Value>> for Value {
     fn from(list: NumbatList<Value>) -> Self {
         Value::List(list)
